@@ -77,6 +77,10 @@ def run(ctx):
                 inputs.append((p, ['-t', rng.choice(['x86_64-sysv', 'aarch64', 'riscv64'])]))
         except Exception as e:
             ctx.notes.append('generated units skipped: %r' % (e,))
+        # a few inputs without -t (default target) and with -E only
+        for f in sorted(glob.glob(os.path.join(plain, 'test', '*.c')))[:170:7]:
+            if '+' not in os.path.basename(f):
+                inputs.append((f, []))
         base_env = {'PATH': '/usr/bin:/bin', 'LC_ALL': 'C'}
         big = dict(base_env)
         for i in range(300):
@@ -91,6 +95,15 @@ def run(ctx):
             ('large-environment', big, []),
             ('empty-environment', {}, []),
         ]
+        shim = os.path.join(ctx.tmp, 'revmalloc.so')
+        e = ctx.cc(shim, [os.path.join(vlib.VERIF, 'harness/c20/revmalloc.c')], flags='-O1 -shared -fPIC')
+        if e:
+            ctx.notes.append('reverse-order allocator shim did not build: ' + e[:200])
+        else:
+            envs.append(('allocator: decreasing addresses, 0xa5 fill (LD_PRELOAD shim)', dict(base_env, LD_PRELOAD=shim), []))
+            envs.append(('allocator: decreasing addresses, 0x00 fill (LD_PRELOAD shim)', dict(base_env, LD_PRELOAD=shim, REVMALLOC_FILL='0'), []))
+        envs.append(('MALLOC_MMAP_THRESHOLD_=0', dict(base_env, MALLOC_MMAP_THRESHOLD_='0'), []))
+        envs.append(('MALLOC_TOP_PAD_=1048576', dict(base_env, MALLOC_TOP_PAD_='1048576', MALLOC_ARENA_MAX='1'), []))
         rc0, _, _ = sh(['setarch', 'x86_64', '-R', 'true'])
         if rc0 != 0:
             envs = [e for e in envs if e[0] != 'aslr-off']
@@ -171,7 +184,9 @@ def run(ctx):
         bad_imports = [e for e in externs if e in ('getenv', 'secure_getenv')]
         if bad_imports:
             names = set()
-            for path, args in inputs[:20]:
+            # which variables are read?  trace a spread of invocations (with and without -t / -E)
+            traced = inputs[:10] + [i for i in inputs if not i[1]][:10] + [i for i in inputs if '-E' in i[1]][:5]
+            for path, args in traced:
                 lg = os.path.join(work, 'ltrace.log')
                 run_limited(['ltrace', '-e', 'getenv+secure_getenv', '-o', lg, exe] + args + [path], timeout=30, env=base_env)
                 if os.path.exists(lg):
